@@ -4,7 +4,7 @@ use crate::gen;
 use crate::runner::{CheckSpec, Family, Judge};
 
 pub fn all_props() -> Vec<&'static str> {
-    vec!["C02", "C03", "C10", "C11"]
+    vec!["C02", "C03", "C04", "C08", "C09", "C10", "C11", "C16", "C17", "C18"]
 }
 
 const REAL_RUST: &[&str] = &["/repo/src (blake3 crate, built from the working tree with --cfg blake3_team_blake3_verif)", "rayon-core", "memmap2", "digest", "zeroize", "arrayvec", "kernel VFS (scratch files)"];
@@ -49,6 +49,71 @@ pub fn spec(prop: &str) -> Option<CheckSpec> {
             real: REAL_RUST.to_vec(),
             stubs: vec![],
             assumptions: vec!["oracle = freshly constructed twin + crate one-shot functions; SpecModel for non-root chaining values"],
+        }),
+        "C08" => Some(CheckSpec {
+            prop: "C08",
+            level: "exploration",
+            rule: "Each run: update_with_join (the generic function behind update_rayon) driven through the scripted Join hook: per recursive split the plan decides left-first / right-first / concurrent (concurrent halves become child tasks interleaved by the baton scheduler at every kernel dispatch; pool width 1-8, saturated pools run inline). Inputs of 2..300 chunks (1024 thorough) after odd prefixes, levels forced so that degree 1/4/8/16 recursion shapes all occur. A sixth of the runs use real rayon pools (width 1,2,4,16) and update_mmap_rayon. Oracle: the state must be what serial update leaves: count(), finalize and 131 XOF bytes equal the one-shot function on the bytes absorbed, and the continuation (one more fragment, finalize again) agrees too. distinct_nontrivial = distinct schedule signatures + state shapes.",
+            families: vec![Family { name: "c08", gen: gen::c08, quick: 60_000, thorough: 2_000_000, judge: Judge::Exec }],
+            real: REAL_RUST.to_vec(),
+            stubs: vec!["the thread pool behind Join is the simulator (scripted VerifJoin hook) in 5/6 of the runs; real rayon-core in the rest", "C blake3_hasher_update_tbb: see c06/c08-c families (oneTBB absent; the harness implements the TBB link seam)"],
+            assumptions: vec!["interleaving granularity = kernel dispatch (hook H2); finer-grained races are left to the Miri tier"],
+        }),
+        "C18" => Some(CheckSpec {
+            prop: "C18",
+            level: "exploration",
+            rule: "Each run: 2-6 simulated caller tasks, each with its own program over its own instances (hasher histories through update/Write/Read adapters, XOF reader histories with seeks, one-shot calls), each task forced to its own SIMD level, interleaved by the baton scheduler at every kernel dispatch, detect() call, reader call and operation boundary (uniform / sticky / bursty schedules). Oracle (Solo): every task program is also executed alone and every operation must return the same bytes under interleaving; the per-operation oracles of C02/C03 apply as well. distinct_nontrivial = distinct schedule signatures + state shapes.",
+            families: vec![Family { name: "c18", gen: gen::c18, quick: 40_000, thorough: 1_500_000, judge: Judge::Solo }],
+            real: REAL_RUST.to_vec(),
+            stubs: vec!["Rust cpufeatures detection cache is real but not schedulable (macro-generated private static): first-use race covered only by the process-level tier"],
+            assumptions: vec!["interleaving granularity = hook sites; state that two tasks could corrupt for each other must live across a kernel call to be seen here"],
+        }),
+        "C04" => Some(CheckSpec {
+            prop: "C04",
+            level: "exploration",
+            rule: "Exact replay across configurations: every plan of the C02 (histories), C03 (XOF/seek), C08 (scripted join) and C11 (reader) families is executed once per SIMD level this build can run (Portable, SSE2, SSE4.1, AVX2, AVX-512 forced through the detect() hook, plus real detection); the per-operation result digests must be identical in every configuration, and each execution is also judged by its own oracles. The check script repeats this for the default (assembly), prefer_intrinsics and pure builds and compares the per-run digests between builds. distinct_nontrivial = distinct state shapes + schedule signatures.",
+            families: vec![
+                Family { name: "c04-c02", gen: gen::c04_hist, quick: 25_000, thorough: 600_000, judge: Judge::CompareLevels },
+                Family { name: "c04-c03", gen: gen::c04_xof, quick: 25_000, thorough: 600_000, judge: Judge::CompareLevels },
+                Family { name: "c04-c08", gen: gen::c04_join, quick: 8_000, thorough: 200_000, judge: Judge::CompareLevels },
+                Family { name: "c04-c11", gen: gen::c04_reader, quick: 15_000, thorough: 300_000, judge: Judge::CompareLevels },
+            ],
+            real: REAL_RUST.to_vec(),
+            stubs: vec![],
+            assumptions: vec!["a level can only be forced if the CPU supports it (all five do here)", "MSVC .asm, NEON and wasm32 kernels cannot run here and are outside the claim"],
+        }),
+        "C09" => Some(CheckSpec {
+            prop: "C09",
+            level: "exploration",
+            rule: "Cluster family: an input > 1 chunk is decomposed (recursive left_subtree_len splits stopped at random depths, fixed 2^j-chunk groups, or a mix) into shards assigned to 1-6 simulated worker tasks; each worker hashes its shard with set_input_offset + any update fragmentation/adapter + finalize_non_root and sends the chaining value to the coordinator task; injected faults: worker crash mid-shard (partial hasher abandoned, shard recomputed on a fresh hasher, possibly elsewhere), duplicated and reordered CV messages. The coordinator merges by tree position (merge_subtrees_non_root / _root / _root_xof). Oracle: every shard CV and every merge = SpecModel; the root hash/XOF = the crate's one-shot function / finalize_xof on the whole input. Giant family: a virtual input length up to 2^64-1 is walked down with left_subtree_len (each value compared with the model's largest power of two below n) to a <= 64 KiB window at a chunk-aligned offset up to 2^64-1024 (chunk counters >= 2^32 and up to 2^54-1); only the window is hashed, as one subtree and as two merged halves, and compared with the model; max_subtree_len is compared with 1024*2^tz at every shard start. distinct_nontrivial = distinct state shapes + schedule signatures.",
+            families: vec![
+                Family { name: "c09-cluster", gen: gen::c09, quick: 25_000, thorough: 1_500_000, judge: Judge::Exec },
+                Family { name: "c09-giant", gen: gen::c09_giant, quick: 25_000, thorough: 1_500_000, judge: Judge::Exec },
+            ],
+            real: REAL_RUST.to_vec(),
+            stubs: vec!["the network between workers and coordinator is the simulator's in-memory mailbox (delivery order decided by the schedule)"],
+            assumptions: vec!["SpecModel for subtree chaining values and the two length helpers", "crate one-shot functions for the whole-input comparison"],
+        }),
+        "C16" => Some(CheckSpec {
+            prop: "C16",
+            level: "exploration",
+            rule: "Traits family: hasher histories in which every step is issued through a RustCrypto trait surface chosen per operation (Update / Digest::update / Mac::update, FixedOutput on a clone, FixedOutputReset, ExtendableOutput on a clone, ExtendableOutputReset, XofReader::read, Reset, KeyInit::new, Digest::new, Mac::finalize, Digest::finalize); oracle = the inherent-API semantics kept by the shadow state (crate one-shot on the bytes absorbed since the last reset, fresh twin in lockstep after each resetting variant, SpecModel stream for readers), so the state left behind by *_reset is observed through the continuation. Guts family: whole inputs hashed the legacy way (guts::ChunkState per chunk under any update fragmentation, parent_cv up the tree, is_root only at the real root) must equal SpecModel node by node and the one-shot hash at the root; isolated chunks at counters up to 2^64-1. distinct_nontrivial = distinct state shapes reached.",
+            families: vec![
+                Family { name: "c16-traits", gen: gen::c16_traits, quick: 100_000, thorough: 3_000_000, judge: Judge::Exec },
+                Family { name: "c16-guts", gen: gen::c16_guts, quick: 60_000, thorough: 2_000_000, judge: Judge::Exec },
+            ],
+            real: REAL_RUST.to_vec(),
+            stubs: vec![],
+            assumptions: vec!["crate inherent API semantics as decided by C02/C03/C10", "SpecModel for guts chaining values"],
+        }),
+        "C17" => Some(CheckSpec {
+            prop: "C17",
+            level: "exploration",
+            rule: "Histories (keyed and derive modes emphasised; partial blocks >= 8 bytes, stack depth >= 2, readers mid-block) with probe instants chosen by the plan: at a probe the task formats {:?}/{:#?} of the Hasher / OutputReader, or snapshots the live object's memory, calls zeroize() and snapshots again (Hasher, OutputReader, Hash). Oracles: (in-run) the text contains no rendering of a key/CV/input word and no 8 consecutive non-zero bytes survive zeroize() unchanged; (self-composition) the same plan re-executed with every secret byte (keys, contexts, inputs) XOR-swapped must print byte-identical Debug text at every probe and leave memory that does not differ in any window of >= 8 bytes. distinct_nontrivial = distinct state shapes at the probes.",
+            families: vec![Family { name: "c17", gen: gen::c17, quick: 60_000, thorough: 2_000_000, judge: Judge::SelfCompose }],
+            real: REAL_RUST.to_vec(),
+            stubs: vec![],
+            assumptions: vec!["padding inside these types is < 8 bytes (true for the current layout), so 8-byte windows cannot be padding", "object memory is read through a raw pointer (release build, not Miri)"],
         }),
         _ => None,
     }
